@@ -13,7 +13,8 @@ import (
 func buildListRequest(response j5schema.RootSchema) (*client_j5pb.ListRequest, error) {
 
 	responseObj, ok := response.(*j5schema.ObjectSchema)
-	if !ok {
+	if !ok || responseObj == nil {
+		// a method without a response body passes a nil *ObjectSchema
 		return nil, fmt.Errorf("expected object schema, got %T", response)
 	}
 
